@@ -28,7 +28,7 @@ NEG = [('dyad_after_bounds_q', ['Inv_X04_Counted', 'Inv_X04_SplitIndependent', '
        ('mut_swap_um_q', ['Inv_X04_Counted']),
        ('mut_prune_le_q', ['Inv_X04_SplitIndependent', 'Inv_X04_JobPrune', 'Inv_X04_PostOp']),
        ('impl_q', None)]
-GEN = [('gen_count', 500, 20000), ('gen_prune', 300, 20000), ('gen_post', 600, 30000), ('gen_post2', 300, 20000)]   # (cfg, quick sample, thorough sample)
+GEN = [('gen_count', 500, 6000), ('gen_prune', 300, 4000), ('gen_post', 600, 8000), ('gen_post2', 300, 4000)]   # (cfg, quick sample, thorough sample)
 
 
 def key_fn(ev, clause):
